@@ -52,7 +52,8 @@ func main() {
 		parts := strings.Split(*fShard, ",")
 		i, _ := strconv.Atoi(parts[1])
 		n, _ := strconv.Atoi(parts[2])
-		runShard(parts[0], i, n, parts[3] == "thorough")
+		secs, _ := strconv.Atoi(parts[4])
+		runShard(parts[0], i, n, parts[3] == "thorough", time.Duration(secs)*time.Second)
 		return
 	case *fStream:
 		runStreamWorker()
@@ -64,7 +65,7 @@ func main() {
 		replayFile(r.ReplayArg)
 	}
 	thorough := r.Thorough()
-	r.Rule("grammar: every derivation with sections<=2(3 thorough), items<=2, params<=2, '&&' chains<=2(3), value lists<=2(3), nesting<=3, all literal styles (bare ID, bare NON_ID, '..', \"..\"), with/without key, '!', annotations, outbound bare/function — full per-item product, pairs against 10 representative neighbours — each spelled compactly, fully spaced, and with 8 kinds of white space/comment inserted at every token boundary one at a time; nearmiss: every single-token delete/duplicate/adjacent-swap of " + strconv.Itoa(len(nearMissSeeds)) + " valid seeds on visible and on all tokens; bytes: every string of length<=4(5) over 21 symbols in 4 syntactic contexts; typed: config.New structure matrix + rule function x key x value matrix + programs of 1022..1026 and 2048 match sets; include: all 4096 ordered include graphs on 3 files + path/permission matrix. A case is one distinct text (or file tree); distinct_nontrivial counts distinct cases.")
+	r.Rule("grammar: every derivation within: sections<=2 (3 thorough), items per section<=2, params per function/annotation<=2, '&&' chains<=2 (3), value lists<=2 (3), nesting depth<=3; literal styles bare ID / bare NON_ID / '..' / \"..\"; with/without key, '!', annotation, outbound bare or function — the full product per single item (quick: members of a 2-chain take one parameter from {bare,'..'}x{keyed,plain}x{!,plain}); two-item sections = every item shape x 4 (10) representative neighbours in both orders; nested and multi-section programs over 10 representative items. Each derivation is spelled compactly and fully spaced, and single-item/nested/multi-section ones additionally with each of 6 (8) kinds of white space / comment inserted at every token boundary, one at a time (thorough: also at the junction of two-item sections). nearmiss: every single-token delete / duplicate / adjacent swap of " + strconv.Itoa(len(nearMissSeeds)) + " valid seeds, on the visible tokens (re-spaced) and on all tokens incl. white space and comments (concatenated); thorough adds all pairs of such mutations on visible tokens. bytes: every string of length<=4 (5) over 21 symbols bare, <=4 inside a section body, <=3 (4) inside a parameter list and inside a declaration value. typed: config.New structure matrix, rule function(16) x key(11) x value(12/27) x negation matrix through the production optimizer chain into the traffic, DNS-request and DNS-response compilers, outbound/fallback variants, programs of 1022..1026 and 2048 match sets in 5 shapes (+DNS). include: all 4096 ordered include graphs on 3 files + 95-case path-spelling / file-kind / permission matrix on a real directory tree. A case is one distinct text (duplicates are dropped before evaluation) or one file tree / configuration; a text case is NON-TRIVIAL when it is lexically well-formed and has at least two parser-visible tokens (it gets past the lexer and gives parser and walker something to do); typed and include cases are all distinct by construction and non-trivial; distinct_nontrivial is the measured count of such cases, evaluations counts every executed case incl. lexically broken texts.")
 	legs := map[string]bool{}
 	for _, l := range strings.Split(*fLegs, ",") {
 		legs[l] = true
@@ -107,6 +108,9 @@ func main() {
 					e.Input, e.Detail = v.Input, v.Detail
 				}
 			}
+			if res.Capped {
+				r.CapHit("leg " + leg + " stopped at its internal deadline (machine too slow/loaded): not all enumerated cases were evaluated")
+			}
 			if res.Extra["inotify_unavailable"] != 0 {
 				r.CapHit("inotify unavailable: 'never opened' was only checked through merged content (decoy markers)")
 			}
@@ -121,7 +125,8 @@ func main() {
 		}
 		evals.Add(ev)
 		distinct += dist
-		r.Set(leg+"_texts", dist)
+		r.Set(leg+"_texts", ev)
+		r.Set(leg+"_nontrivial", dist)
 		r.Set(leg+"_accepted", acc)
 		r.Set(leg+"_rejected", rej)
 		r.Set(leg+"_base_cases", base)
@@ -158,6 +163,18 @@ func main() {
 	r.Finish()
 }
 
+// legBudget: internal deadline of one sharded leg (a cap, never an oracle). -budget scales all of them.
+func legBudget(r *vlib.Run, leg string) time.Duration {
+	q, t := 150*time.Second, 600*time.Second
+	if leg == "grammar" {
+		t = 1500 * time.Second
+	}
+	if leg == "bytes" {
+		t = 900 * time.Second
+	}
+	return r.Budget(q, t)
+}
+
 type crash struct {
 	shard int
 	site  string
@@ -178,7 +195,7 @@ func runShards(r *vlib.Run, leg string, thorough bool) ([]*shardResult, []crash)
 		wg.Add(1)
 		go func(i int) {
 			defer wg.Done()
-			cmd := exec.Command(os.Args[0], "-c17shard", fmt.Sprintf("%s,%d,%d,%s", leg, i, n, tier))
+			cmd := exec.Command(os.Args[0], "-c17shard", fmt.Sprintf("%s,%d,%d,%s,%d", leg, i, n, tier, int(legBudget(r, leg).Seconds())))
 			var out, errb bytes.Buffer
 			cmd.Stdout, cmd.Stderr = &out, &errb
 			err := cmd.Run()
